@@ -71,6 +71,9 @@ impl<'a> Rep<'a> {
     pub fn viol(&mut self, class: &str, srckind: &str, qkind: &str, v: &Variant, query: &str, detail: &str, extra: impl FnOnce() -> String) {
         let pkey = format!("{}:{}:{}:{}", self.sub, class, srckind, qkind);
         *self.hits.entry(pkey.clone()).or_insert(0) += 1;
+        if v.backing == "file" {
+            *self.hits.entry(format!("{pkey} [file-backed archive]")).or_insert(0) += 1;
+        }
         let rank = self.res.cur_rank;
         if self.res.violations.iter().any(|x| x.key == pkey && x.rank <= rank) {
             return;
